@@ -293,6 +293,14 @@ def builtinPemsM : List String → M (List Bytes)
     let ps ← builtinPemsM ns
     pure (p :: ps)
 
+/-- the certificates among a list of PEM texts, each re-serialised canonically (unreadable entries are skipped) -/
+def pemCanonsM : List Bytes → M (List Bytes)
+  | [] => pure []
+  | p :: ps => do
+    let c ← pemCanonM p
+    let cs ← pemCanonsM ps
+    pure (match c with | some x => x :: cs | none => cs)
+
 def rpPemsOf (roots : List Root) : List Bytes :=
   roots.filterMap (fun r => match r with | .pem b => some b | .builtin _ => none)
 
@@ -308,7 +316,9 @@ def verifyAndroidKey (st : AttStmt) (authDataRaw : Cbor) (cdj : Bytes) (credKey 
   -- "Make sure the root cert is one of these"
   let builtin := (builtinRootNames.lookup "android-key").getD []
   let builtinPems ← builtinPemsM builtin
-  reject (!((rpPemsOf roots ++ builtinPems).contains rootCert.pem)) (regErr "akey.root-unknown")
+  -- certificates are compared, not the way their PEM files are written
+  let known ← pemCanonsM (rpPemsOf roots ++ builtinPems)
+  reject (!(known.contains rootCert.pem)) (regErr "akey.root-unknown")
   let cdHash ← sha256M cdj
   let data ← liftE (attToBeSigned authDataRaw cdHash "akey.join")
   let leaf ← liftE (headOr x5c (nonlibErr "IndexError" "akey.x5c0"))
